@@ -56,3 +56,63 @@ Theorem C11_reopen_keeps_content :
     cn_incar (fst (restore inc f)) = inc /\ fn_incar (snd (restore inc f)) = inc.
 Proof. exact restore_keeps_content. Qed.
 Print Assumptions C11_reopen_keeps_content.
+
+(* END TO END: the combined system "collection with child collections + store"
+   (TreeInv.v: every lower-level update is what the store model computes, for
+   any persist choice incl. every compaction splice point; any placement of
+   merger and persister steps; arbitrary merge operator).  For every label
+   sequence whose batches name each child at most once per node (tb_good; real
+   batches keep children in a map), the current snapshot READS AS THE REFERENCE
+   TREE: at the root and at every path of child names every key reads what the
+   reference holds, and the child names are exactly the reference's - a deleted
+   child is gone, a re-created child does not see its predecessor. *)
+From Coq Require Import List.
+From Moss Require Import TreeInv TreeInvFacts.
+Theorem C11_tree_snapshot_reads_reference :
+  forall (fm : bytes -> value -> bytes -> value) (c : cfg) (ls : list clabel) (cs : cst),
+    Forall (fun b => tb_good b = true) (cbatches ls) ->
+    crun fm c (cinit c) ls = Some cs ->
+    reads_as fm (t_cur_snapshot (c_t cs)) (ref_tree (cbatches ls)).
+Proof. exact tree_snapshot_reads_reference. Qed.
+Print Assumptions C11_tree_snapshot_reads_reference.
+
+Theorem C11_tree_reads_reference_at_every_path :
+  forall (fm : bytes -> value -> bytes -> value) (c : cfg) (ls : list clabel) (cs : cst) (p : list cname),
+    Forall (fun b => tb_good b = true) (cbatches ls) ->
+    crun fm c (cinit c) ls = Some cs ->
+    match ss_at (t_cur_snapshot (c_t cs)) p, rt_at (ref_tree (cbatches ls)) p with
+    | Some s', Some r' =>
+        (forall k, ss_get fm s' k = rt_get fm r' k) /\
+        (forall n, In n (map fst (ss_kids s')) <-> In n (map fst (rt_kids r')))
+    | None, None => True
+    | _, _ => False
+    end.
+Proof. exact tree_snapshot_reads_reference_at_every_path. Qed.
+Print Assumptions C11_tree_reads_reference_at_every_path.
+
+(* the store, read through the collection's bookkeeping, holds the reference after
+   a prefix of the batches, and everything once nothing is dirty (partial: the
+   footer tree on its own differs by pending existence-only changes, finding F10b) *)
+Theorem C11_tree_store_reads_prefix_partial :
+  forall (fm : bytes -> value -> bytes -> value) (c : cfg) (ls : list clabel) (cs : cst),
+    has_ll c = true ->
+    Forall (fun b => tb_good b = true) (cbatches ls) ->
+    crun fm c (cinit c) ls = Some cs ->
+    exists a ca, a <= length (cbatches ls) /\
+                 reads_as fm (assemble ca [] (Some (c_store cs)) true)
+                          (ref_tree (firstn a (cbatches ls))).
+Proof. exact tree_store_reads_prefix_partial. Qed.
+Print Assumptions C11_tree_store_reads_prefix_partial.
+
+(* the hand-over of the pinned commit (only the root of the stack given to the
+   persister got the current lower-level snapshot): refuted - finding F28 *)
+Theorem C11_refuted_pre_fix_stale_child_lower_level :
+  exists cs s r,
+    Forall (fun b => tb_good b = true) (cbatches cex_run) /\
+    crun_pre_fix fm_append cex_cfg (cinit cex_cfg) cex_run = Some cs /\
+    assoc cex_n (ss_kids (t_cur_snapshot (c_t cs))) = Some s /\
+    assoc cex_n (rt_kids (ref_tree (cbatches cex_run))) = Some r /\
+    ss_get fm_append s cex_k = Some [58; 97; 58; 98; 58; 99]%N /\
+    rt_get fm_append r cex_k = Some [100; 58; 97; 58; 98; 58; 99]%N.
+Proof. exact tree_theorem_refuted_pre_fix. Qed.
+Print Assumptions C11_refuted_pre_fix_stale_child_lower_level.
